@@ -52,6 +52,9 @@ pub fn run_prop<T, S>(
     T: Debug,
     S: Strategy<Value = T>,
 {
+    // development aid: VERIF_CASES_SCALE=<percent> scales every case count
+    let scale: u32 = std::env::var("VERIF_CASES_SCALE").ok().and_then(|s| s.parse().ok()).unwrap_or(100);
+    let cases = ((cases as u64 * scale as u64) / 100).max(1) as u32;
     let mut runner = proptest_runner(ctx, prop, salt ^ hash_str(check), cases);
     let failed = RefCell::new(false);
     let acc = RefCell::new(std::mem::take(res));
